@@ -520,7 +520,18 @@ func vZone(name string) *time.Location {
 	return l
 }
 
+var vScratchPerProcess = false
+
 func vScratchDir() string {
+	if vScratch != "" && !vScratchPerProcess {
+		// native fuzzing runs many worker processes with the same environment: every process gets its own
+		// scratch directory, otherwise the workers overwrite each other's input files
+		vScratch = filepath.Join(vScratch, fmt.Sprintf("p%d", os.Getpid()))
+		vScratchPerProcess = true
+		if err := os.MkdirAll(vScratch, 0o755); err != nil {
+			vFault("mkdir scratch: %v", err)
+		}
+	}
 	if vScratch == "" {
 		d, err := os.MkdirTemp("", "verif-scratch-")
 		if err != nil {
